@@ -184,6 +184,23 @@ func c03Case(rng *rand.Rand, cs int) {
 			if rng.Intn(3) == 0 || o == nops-1 {
 				c03Queries(pl, nh, o == nops-1)
 			}
+			// events between the mutations too (a pipeline is changed while it is in use: protocol upgrades);
+			// only kinds that cannot close the channel
+			if o < nops-1 && rng.Intn(2) == 0 {
+				observe := c03Observer(env, tr)
+				for _, k := range rng.Perm(4)[:1+rng.Intn(3)] {
+					switch k {
+					case 0:
+						observe(0, 0, func() { pl.FireChannelActive() })
+					case 1:
+						observe(1, 0, func() { pl.FireChannelRead("m") })
+					case 2:
+						observe(5, 0, func() { pl.FireChannelEvent("e") })
+					default:
+						observe(2, pl.Size()-1, func() { pl.FireChannelWrite([]byte("w")) })
+					}
+				}
+			}
 		}
 		c03Events(env, pl, ch, tr, rng)
 	}
@@ -224,9 +241,8 @@ func c03Queries(pl netty.Pipeline, nh int, full bool) {
 	}
 }
 
-func c03Events(env *c03env, pl netty.Pipeline, ch netty.Channel, tr *mock.Transport, rng *rand.Rand) {
-	size := pl.Size()
-	observe := func(kind int, pos int, f func()) bool {
+func c03Observer(env *c03env, tr *mock.Transport) func(kind int, pos int, f func()) bool {
+	return func(kind int, pos int, f func()) bool {
 		env.recKind = kind
 		env.log = nil
 		w0 := len(tr.Snapshot())
@@ -245,6 +261,11 @@ func c03Events(env *c03env, pl netty.Pipeline, ch netty.Channel, tr *mock.Transp
 		emit("C03 from %d %d %s %s", kind, pos, final, strings.Join(env.log, " "))
 		return final == "close"
 	}
+}
+
+func c03Events(env *c03env, pl netty.Pipeline, ch netty.Channel, tr *mock.Transport, rng *rand.Rand) {
+	size := pl.Size()
+	observe := c03Observer(env, tr)
 	ex := errors.New("nv-exception")
 	msg := []byte("w")
 	// pipeline.Fire* and Channel.Write/Trigger
